@@ -7,7 +7,8 @@ PROPS=${@:-C01 C02 C03 C04 C05 C06 C07 C08 C09 C10 C11 C12 C13 C14 C15 C16 C17 C
 WT=/tmp/bc_$$; rm -rf $WT
 git -C /repo worktree add -f --detach $WT HEAD -q >/dev/null 2>&1
 git -C $WT apply $D/patch.diff 2>/dev/null || { echo "PATCH DOES NOT APPLY: $D"; git -C /repo worktree remove --force $WT; exit 9; }
-cd /verif
+HERE=$(cd "$(dirname "$0")/.." && pwd); cd $HERE
+[ -x .venv/bin/python ] || ./setup.sh >/dev/null 2>&1
 for P in $PROPS; do
   VERIF_REPO=$WT ./check $P --tier quick > /tmp/bc_$$.out 2>&1; rc=$?
   nv=$(grep -c "^VIOLATION" /tmp/bc_$$.out); nu=$(grep -c "^UNDECIDED" /tmp/bc_$$.out)
